@@ -197,7 +197,23 @@ int main(int argc, char** argv) {
         gen.setPartner(GGeom{}, 0);
         bool cov = r.chance(6);
         GGeom A, B;
+        bool bigSmall = !cov && r.chance(dbl ? 3 : 6);
         if (cov) { A = coverage(r, out); B.container = 2; }
+        else if (bigSmall) {
+            // a big operand with many vertices (every edge cut into m lattice pieces) and a small partner somewhere inside its extent,
+            // with exact contacts on the big one's linework: the envelopes overlap only partly and the rings / lines have more than
+            // 20 vertices — the situation in which OverlayNG clips rings and limits lines before noding
+            auto kind = [&]() { int k = (int) r.below(100); return k < 55 ? 2 : k < 90 ? 1 : 3; };
+            A = gen.geom(kind(), true, false);
+            long m = r.range(4, 8); scaleGeom(A, m, true);
+            long W = (long) gen.span * m; int small = r.range(3, 5);
+            long ox = r.range(0, (int) std::max<long>(0, W - small)), oy = r.range(0, (int) std::max<long>(0, W - small));
+            for (auto& e : A.elems) for (auto& ring : e.rings) for (auto& p : ring) { p.x -= ox; p.y -= oy; }
+            gen.span = small; gen.setPartner(A, 65);
+            gen.pool.erase(std::remove_if(gen.pool.begin(), gen.pool.end(), [&](const IPt& p) { return p.x < -1 || p.y < -1 || p.x > small + 1 || p.y > small + 1; }), gen.pool.end());
+            B = gen.geom(r.chance(60) ? 2 : 1, true, false);
+            if (r.chance(50)) std::swap(A, B);
+            out.count("big_small"); }
         else {
             auto kind = [&]() { int k = (int) r.below(100); return k < 50 ? 2 : k < 78 ? 1 : k < 88 ? 0 : 3; };
             A = r.chance(5) ? gen.nestedFrames() : gen.geom(kind(), true, false);
@@ -205,7 +221,7 @@ int main(int argc, char** argv) {
             B = r.chance(4) ? A : gen.geom(kind(), true, false);
             if (r.chance(50)) std::swap(A, B); }
         long scaleM = 1;
-        if (!cov && r.chance(dbl ? 4 : 7)) {
+        if (!cov && !bigSmall && r.chance(dbl ? 4 : 7)) {
             long m = r.range(5, 9); int which = (int) r.below(2); scaleM = m;          // one operand gets the vertices (the exact oracle is quadratic in them)
             scaleGeom(A, m, which == 0); scaleGeom(B, m, which == 1); out.count("many_vertices"); }
         std::string ta, tb; Xform t; DX d;
